@@ -5,6 +5,8 @@ import (
 	"net"
 	"net/netip"
 	"os"
+	"runtime"
+	"runtime/debug"
 	"strings"
 	"sync"
 	"sync/atomic"
@@ -591,6 +593,18 @@ func (w *c12World) removedOpen(u int) bool {
 // ---------------------------------------------------------------------------------------------------
 // part (b): concurrent
 
+// c12QuietGC keeps the garbage collector from running in the middle of a scheduled run: a collection
+// stops the world, the goroutine that was running is requeued behind the others, and the order in which
+// goroutines woken in the same step reach their park sites (which the scheduler's canonical order uses as
+// tie-breaker) would depend on heap pacing. Collections happen between runs instead.
+func c12QuietGC(c *core.Ctx) {
+	if c.Run%16 == 0 {
+		runtime.GC()
+	}
+	old := debug.SetGCPercent(-1)
+	c.Defer(func() { debug.SetGCPercent(old) })
+}
+
 // c12Sync runs f on its own goroutine (the root goroutine is the scheduler and must never park at a site)
 // and steps the scheduler until everything is quiescent again.
 func c12Sync(s *sched.Sched, f func()) bool {
@@ -655,6 +669,7 @@ func runC12Conc(c *core.Ctx) {
 	if w == nil {
 		return
 	}
+	c12QuietGC(c)
 	s := sched.Install(c, nil)
 	w.nU = t.Range(2, 3, "nufrags")
 	synctest.Wait()
